@@ -32,14 +32,14 @@ import ttconv.style_properties as styles
 
 _LENGTH_RE = re.compile(r"^((?:\+|\-)?\d*(?:\.\d+)?)(px|em|c|%|rh|rw)$")
 
-_CLOCK_TIME_FRACTION_RE = re.compile(r"^(\d{2,}):(\d\d):(\d\d(?:\.\d+)?)$")
-_CLOCK_TIME_FRAMES_RE = re.compile(r"^(\d{2,}):(\d\d):(\d\d):(\d{2,})$")
-_OFFSET_FRAME_RE = re.compile(r"^(\d+(?:\.\d+)?)f")
-_OFFSET_TICK_RE = re.compile(r"^(\d+(?:\.\d+)?)t$")
-_OFFSET_MS_RE = re.compile(r"^(\d+(?:\.\d+)?)ms$")
-_OFFSET_S_RE = re.compile(r"^(\d+(?:\.\d+)?)s$")
-_OFFSET_H_RE = re.compile(r"^(\d+(?:\.\d+)?)h$")
-_OFFSET_M_RE = re.compile(r"^(\d+(?:\.\d+)?)m$")
+_CLOCK_TIME_FRACTION_RE = re.compile(r"^([0-9]{2,}):([0-9][0-9]):([0-9][0-9](?:\.[0-9]+)?)$")
+_CLOCK_TIME_FRAMES_RE = re.compile(r"^([0-9]{2,}):([0-9][0-9]):([0-9][0-9]):([0-9]{2,})$")
+_OFFSET_FRAME_RE = re.compile(r"^([0-9]+(?:\.[0-9]+)?)f$")
+_OFFSET_TICK_RE = re.compile(r"^([0-9]+(?:\.[0-9]+)?)t$")
+_OFFSET_MS_RE = re.compile(r"^([0-9]+(?:\.[0-9]+)?)ms$")
+_OFFSET_S_RE = re.compile(r"^([0-9]+(?:\.[0-9]+)?)s$")
+_OFFSET_H_RE = re.compile(r"^([0-9]+(?:\.[0-9]+)?)h$")
+_OFFSET_M_RE = re.compile(r"^([0-9]+(?:\.[0-9]+)?)m$")
 
 
 def parse_length(attr_value: str) -> typing.Tuple[float, str]:
